@@ -1443,6 +1443,24 @@ func hRunHistory(t *testing.T, out *vOut, r *rand.Rand, id int) {
 			checkQuiescent()
 		}
 		out.Stat("directed_failed_write_scenarios", 1)
+	} else if id%8 == 5 {
+		// directed: one address, a holder using one port number on two protocols, a sharer colliding on one of them
+		doPools([]gPool{{Name: "pa", CIDRs: []string{"10.0.5.6/32"}, Auto: true}})
+		doReload(-1)
+		first, second := 3, 2 // TCP/53 then UDP/53
+		if r.Intn(2) == 0 {
+			first, second = 0, 4 // TCP/80 then UDP/80
+		}
+		holder := gSpec{LB: true, Fam: "ipv4", ClusterOK: true, Pol: "single", Ports: []int{first, second}, Sharing: "k1"}
+		sharer := gSpec{LB: true, Fam: "ipv4", ClusterOK: true, Pol: "single", Ports: []int{[]int{first, second}[r.Intn(2)]}, Sharing: "k1"}
+		doPut("ns1/a", holder)
+		doSvc("ns1/a", false)
+		doPut("ns1/b", sharer)
+		doSvc("ns1/b", false)
+		if drain() {
+			checkQuiescent()
+		}
+		out.Stat("directed_mixed_protocol_scenarios", 1)
 	} else {
 		doPools(gGenPools(r))
 	}
